@@ -48,11 +48,15 @@ def explore(tier, seed):
         for _ in range(8):
             dg = DocGen(sg, rng, op_kinds=("query", "mutation") if sg.mutation else ("query",))
             dg.nested_vars = rng.choice([True, 0.9]); dg.repeat_with_directive = True; dg.note_directive = True
-            q, ops, opvars = dg.document(n_ops=rng.choice([1, 2]))
+            q, ops, opvars = dg.document(n_ops=rng.choice([1, 2, 2, 3]))
             k = rng.randrange(len(ops))
             for _ in range(3):        # the same document with different variables (shared cached AST)
                 variables, _ = dg.variables_for(opvars[k], invalid=0.15)
                 pool.append((q, ops[k][1], variables))
+            for k2 in range(len(ops)):      # … and the same document asked for its OTHER operation(s), with their own variables
+                if k2 != k:
+                    variables, _ = dg.variables_for(opvars[k2], invalid=0.1)
+                    pool.append((q, ops[k2][1], variables))
         pool += [(INTROSPECTION, None, None), ("{ __typename ", None, None), ("{ nope }", None, None), (pool[0][0], "Unknown", None)]
         def solo(engine_b, req, idx=0):
             hub = MultiHub(1)
